@@ -439,6 +439,9 @@ impl<RW: QueueRW<T>, T> MultiQueue<RW, T> {
 
     fn reload_tail_multi(&self, tail_cache: usize, count: usize) -> usize {
         if let Some(max_diff_from_head) = self.tail.get_max_diff(count) {
+            // a stream that add_stream registered behind its (shared) parent can be
+            // more than a full ring behind until add_stream moves it up: that is full
+            let max_diff_from_head = std::cmp::min(max_diff_from_head, self.capacity as Index);
             let current_tail = CountedIndex::get_previous(count, max_diff_from_head);
             if tail_cache == current_tail {
                 return current_tail;
@@ -460,6 +463,7 @@ impl<RW: QueueRW<T>, T> MultiQueue<RW, T> {
             "The write head got ran over by consumers in single writer mode. This \
              process is borked!",
         );
+        let max_diff_from_head = std::cmp::min(max_diff_from_head, self.capacity as Index);
         let current_tail = CountedIndex::get_previous(count, max_diff_from_head);
         self.tail_cache.store(current_tail, Relaxed);
         current_tail
